@@ -10,6 +10,8 @@ rows = []
 for d in sorted(glob.glob(f"{V}/seeded/*/")):
     name = os.path.basename(d.rstrip("/"))
     mp = f"{d}meta.json"
+    if name.startswith("own-"):
+        continue
     if not os.path.exists(mp):
         continue
     meta = json.load(open(mp))
@@ -39,7 +41,12 @@ for d in sorted(glob.glob(f"{V}/seeded/*/")):
                 if l.startswith("VIOLATION") and i + 1 < len(lines):
                     first = lines[i + 1].strip()[:240]
                     break
-            meta["current"] = {"applies": True, "check": pid, "exit": o.returncode, "detected": o.returncode == 1 and any(l.startswith("VIOLATION") for l in lines), "first": first, "wall_s": round(time.time() - t, 1), "verif_commit": run(f"git -C {V} rev-parse --short HEAD").stdout.strip()}
+            demo_exit = None
+            if not (o.returncode == 1 and any(l.startswith("VIOLATION") for l in lines)):
+                # not detected: does the demonstration still fail on the current tree with the change?
+                dm = run(f"cd /tmp && PYTHONPATH={wt}/src timeout 600 /venv/bin/python {d}demo.py")
+                demo_exit = dm.returncode
+            meta["current"] = {"applies": True, "demo_exit_with_patch_now": demo_exit, "check": pid, "exit": o.returncode, "detected": o.returncode == 1 and any(l.startswith("VIOLATION") for l in lines), "first": first, "wall_s": round(time.time() - t, 1), "verif_commit": run(f"git -C {V} rev-parse --short HEAD").stdout.strip()}
     finally:
         run(f"git -C /repo worktree remove --force {wt}")
     json.dump(meta, open(mp, "w"), indent=1)
@@ -51,7 +58,16 @@ with open(f"{V}/seeded/README.md", "w") as f:
     for name, m in rows:
         first = ", ".join(f"{c}:{'detected' if v.get('detected') else 'missed'}" for c, v in (m.get("checks") or {}).items()) or "-"
         cur = m.get("current") or {}
-        now = m.get("status_after_fix") or ("detected" if cur.get("detected") else ("MISSED" if cur.get("applies") else "patch no longer applies"))
+        if m.get("status_after_fix"):
+            now = m["status_after_fix"]
+        elif cur.get("detected"):
+            now = "detected"
+        elif cur.get("applies") and cur.get("demo_exit_with_patch_now") == 0:
+            now = "neutralised: a later fix: commit makes the change harmless (its own demonstration passes with the change applied)"
+        elif cur.get("applies"):
+            now = "MISSED"
+        else:
+            now = "obsolete: the code it edits was replaced by a later fix: commit (patch no longer applies)"
         what = (m.get("summary") or "")[:160].replace("|", "/").replace("\n", " ")
         need = (m.get("needs_to_manifest") or "")[:160].replace("|", "/").replace("\n", " ")
         f.write(f"| {name} | {m.get('property')} | {what} — needs: {need} | {first} | {now} |\n")
